@@ -63,6 +63,7 @@
 #include <string>
 #include <sstream>
 #include <stack>
+#include <limits>
 #include <cstddef>
 #include <cctype>
 
@@ -184,7 +185,75 @@ private:
   std::stack<OperatorValue> stack_;
 
   /// Exponentiation by squaring, x^n.
-  static T pow(T x, T n)
+  /// Integer overflow (or underflow) is an error: the result
+  /// must be the exact value of the expression.
+  void overflow() const
+  {
+    std::ostringstream msg;
+    msg << "Overflow error: \"" << expr_ << "\" does not fit into "
+        << std::numeric_limits<T>::digits << " bits";
+    throw calculator::error(expr_, msg.str());
+  }
+
+  T checkedAdd(T x, T y) const
+  {
+    if (y > 0 ? x > std::numeric_limits<T>::max() - y
+              : x < std::numeric_limits<T>::min() - y)
+      overflow();
+    return x + y;
+  }
+
+  T checkedSub(T x, T y) const
+  {
+    if (y > 0 ? x < std::numeric_limits<T>::min() + y
+              : x > std::numeric_limits<T>::max() + y)
+      overflow();
+    return x - y;
+  }
+
+  T checkedMul(T x, T y) const
+  {
+    T max = std::numeric_limits<T>::max();
+    T min = std::numeric_limits<T>::min();
+
+    if (x == 0 || y == 0)
+      return 0;
+    if (x > 0 ? (y > 0 ? x > max / y : y < min / x)
+              : (y > 0 ? x < min / y : x < max / y))
+      overflow();
+    return x * y;
+  }
+
+  T checkedDiv(T x, T y) const
+  {
+    // min / -1 overflows
+    if (y < 0 && y + 1 == 0 && x == std::numeric_limits<T>::min())
+      overflow();
+    return x / y;
+  }
+
+  T checkedMod(T x, T y) const
+  {
+    // min % -1 overflows, x % -1 = 0
+    if (y < 0 && y + 1 == 0)
+      return 0;
+    return x % y;
+  }
+
+  T checkedShift(T x, T n, bool left) const
+  {
+    // Shifting by a negative count or by >= the number
+    // of bits is undefined behavior in C++.
+    if (n < 0 || n >= (T) std::numeric_limits<T>::digits)
+      overflow();
+    if (!left)
+      return x >> n;
+    if (x < 0 || x > (std::numeric_limits<T>::max() >> n))
+      overflow();
+    return x << n;
+  }
+
+  T pow(T x, T n) const
   {
     T res = 1;
 
@@ -192,13 +261,13 @@ private:
     {
       if (n % 2 != 0)
       {
-        res *= x;
+        res = checkedMul(res, x);
         n -= 1;
       }
       n /= 2;
 
       if (n > 0)
-        x *= x;
+        x = checkedMul(x, x);
     }
 
     return res;
@@ -228,15 +297,15 @@ private:
       case OPERATOR_BITWISE_OR:     return v1 | v2;
       case OPERATOR_BITWISE_XOR:    return v1 ^ v2;
       case OPERATOR_BITWISE_AND:    return v1 & v2;
-      case OPERATOR_BITWISE_SHL:    return v1 << v2;
-      case OPERATOR_BITWISE_SHR:    return v1 >> v2;
-      case OPERATOR_ADDITION:       return v1 + v2;
-      case OPERATOR_SUBTRACTION:    return v1 - v2;
-      case OPERATOR_MULTIPLICATION: return v1 * v2;
-      case OPERATOR_DIVISION:       return v1 / checkZero(v2);
-      case OPERATOR_MODULO:         return v1 % checkZero(v2);
+      case OPERATOR_BITWISE_SHL:    return checkedShift(v1, v2, true);
+      case OPERATOR_BITWISE_SHR:    return checkedShift(v1, v2, false);
+      case OPERATOR_ADDITION:       return checkedAdd(v1, v2);
+      case OPERATOR_SUBTRACTION:    return checkedSub(v1, v2);
+      case OPERATOR_MULTIPLICATION: return checkedMul(v1, v2);
+      case OPERATOR_DIVISION:       return checkedDiv(v1, checkZero(v2));
+      case OPERATOR_MODULO:         return checkedMod(v1, checkZero(v2));
       case OPERATOR_POWER:          return pow(v1, v2);
-      case OPERATOR_EXPONENT:       return v1 * pow(10, v2);
+      case OPERATOR_EXPONENT:       return checkedMul(v1, pow(10, v2));
       default:                      return 0;
     }
   }
@@ -329,7 +398,7 @@ private:
   {
     T value = 0;
     for (T d; (d = getInteger()) <= 9; index_++)
-      value = value * 10 + d;
+      value = checkedAdd(checkedMul(value, 10), d);
     return value;
   }
 
@@ -338,7 +407,7 @@ private:
     index_ = index_ + 2;
     T value = 0;
     for (T h; (h = getInteger()) <= 0xf; index_++)
-      value = value * 0x10 + h;
+      value = checkedAdd(checkedMul(value, 0x10), h);
     return value;
   }
 
@@ -384,7 +453,7 @@ private:
                 index_++; break;
       case '~': index_++; val = ~parseValue(); break;
       case '+': index_++; val =  parseValue(); break;
-      case '-': index_++; val =  parseValue() * static_cast<T>(-1);
+      case '-': index_++; val =  checkedSub(0, parseValue());
                 break;
       default : if (!isEnd())
                   unexpected();
